@@ -183,10 +183,7 @@ def rule2(ctx, rep):
                     r.check(ok, f'{disp.qname}:{norm(c)}', where(disp, c), 'recycling source ok', msg)
         # _put arguments in dispatch: job = loop variable over _jobs, target from its do set or None
         loops = [n for n in disp.own_nodes() if isinstance(n, ast.For)]
-        jl = [l for l in loops if any(shared.resolve_container(prog, disp, x) == 'dawgie.pl.farm._jobs' for x in ast.walk(l.iter) if isinstance(x, (ast.Name, ast.Attribute)))]
-        if len(jl) != 1 or not isinstance(jl[0].target, ast.Name):
-            raise AnalysisError('farm.dispatch: loop over _jobs not found')
-        jv = jl[0].target.id
+        _loop, jv = shared.job_loop(prog, disp)
         puts = calls_to(prog, disp, put.qname)
         if len(puts) < 3:
             raise AnalysisError('farm.dispatch: fewer than three _put call sites (analysis / task / regress)')
